@@ -515,6 +515,8 @@ type nbClient struct {
 	abortAt        int // tcp: abort after this many bytes written (-1 none)
 	runtAt         int // tcp: a frame with length prefix runtLen (1..11) goes out before this request (-1 none)
 	runtLen        int
+	splitWait      int  // tcp: > 0: the first request and this many bytes of the second frame go out first; the rest after answer #1
+	heldBack       bool // ... and that answer did not come
 	gaps           []int
 	sentAll        bool
 	deadline       bool
